@@ -84,11 +84,11 @@ func init() {
 	}
 	propSpecs["C17"] = &PropSpec{
 		ID:             "C17",
-		Rule:           clusterRule + "C17: exactly one mutation per run - in flight (the copy handed to one follower's StoreLogs differs: data bit flip / truncate / extend, term, type, extensions) or at rest (a node's inner store returns one entry altered on read, incl. index) - on leader or follower, at a tape-chosen position of a range that a later checkpoint covers; index-1 configuration entries excluded. A node that fully holds the range must get ErrChecksumMismatch; the in-flight wording only if the node really stored something else than the leader checksummed. Non-trivial = the mutation reached a verified range.",
+		Rule:           clusterRule + "C17: exactly one mutation per run - in flight (the copy handed to one follower's StoreLogs differs: data bit flip / truncate / extend, term, type, extensions) or at rest (a node's inner store returns one entry altered on read, incl. index, or two neighbouring entries in each other's place) - on leader or follower, at a tape-chosen position of a range that a later checkpoint covers; index-1 configuration entries excluded. A node that fully holds the range must get ErrChecksumMismatch; the in-flight wording only if the node really stored something else than the leader checksummed. Non-trivial = the mutation reached a verified range.",
 		Components:     "real: verifier; harness: replication driver with mutation faults",
 		Assumptions:    []string{"64-bit FNV collisions are not expected at this sample size"},
 		RequiredProbes: []string{"checkpoints", "reports_divergent_range", "mutation_reached_a_verified_range"},
-		RequiredFired:  []string{"mutation_in_flight_term", "mutation_in_flight_type", "mutation_in_flight_extensions", "mutation_at_rest_term", "mutation_at_rest_index"},
+		RequiredFired:  []string{"mutation_in_flight_term", "mutation_in_flight_type", "mutation_in_flight_extensions", "mutation_at_rest_term", "mutation_at_rest_index", "mutation_at_rest_swap"},
 		QuickS:         40, ThoroughS: 600,
 	}
 	propSpecs["C18"] = &PropSpec{
